@@ -9,7 +9,7 @@ STRINGS = [b'"a"', b'"b c"', b'"x@y.z"', b'"\\"q\\""', b'"back\\\\slash"', b'"[b
            b'"multi\nline"', b'"#nocomment"', b'"/* no */"', b'"semi;colon"', b'"{brace}"',
            b'"end\\\\"', b'"\\\\\\"x"', b'"]"', b'","', b'"[\\"a\\",\\"b\\"]"', b'"\xe2\x82\xac\xf0\x9f\x98\x80"', b'" lead and trail "', b'"\r\n"', b'"text:\n.\n"', b'"100%"', b'"%s%d%(k)s"']
 NUMBERS = [b"0", b"10", b"1K", b"2M", b"3g", b"100000"]
-MULTI = [b"text:\nhello\n.\n", b"text:\r\nhi $x\r\n.\r\n", b"text:\n.x\n.\n", b"text:\n20% off %s\n.\n"]
+MULTI = [b"text:\nhello\n.\n", b"text:\r\nhi $x\r\n.\r\n", b"text:\n.x\n.\n", b"text:\n20% off %s\n.\n", b"text:\rhello\r.\n", b"text:\nline one\r.\r\n", b"text: # c\r\nx\r\n.\r\n"]
 
 
 class Gen:
@@ -30,11 +30,14 @@ class Gen:
         if self.r.random() < 0.4:
             return [self.string()]
         n = self.r.randint(1, 3)
+        items = [self.string() for _ in range(n)]
+        if self.r.random() < 0.25:
+            items.append(self.r.choice(items))       # the same string twice in one list (last = an earlier one)
         out = [b"["]
-        for i in range(n):
+        for i, it in enumerate(items):
             if i:
                 out.append(b",")
-            out.append(self.string())
+            out.append(it)
         out.append(b"]")
         return out
 
